@@ -176,6 +176,10 @@ var classOf = map[string]int{"numeric-i": 0, "numeric-u": 0, "numeric-f": 1, "st
 
 func c01Run(c *ev.Ctx) {
 	r := c.R
+	if c.Index%6 == 5 {
+		c01Rewrite(c)
+		return
+	}
 	sbv := []uint8{0, 2, 3}[r.Intn(3)]
 	nds := r.Range(1, 3)
 	maxElems := uint64(c.Pick(4096, 65536))
@@ -430,10 +434,132 @@ func headB(x []byte, n int) []byte {
 	return x
 }
 
+// c01Rewrite: one numeric dataset is written twice (same session, or a second session through
+// OpenDataset); what counts is the data written last. The leg enumerates the byte size around
+// 64 KiB, the layout, and the styles of the first and of the last data.
+func c01Rewrite(c *ev.Ctx) {
+	r := c.R
+	combo := c.Index / 6
+	s2 := combo % 4
+	sizeClass := (combo / 4) % 4
+	chunked := (combo/16)%2 == 1
+	s1 := 3 - (combo/32)%4
+	second := r.Chance(1, 2) // rewrite in a later session
+	sbv := []uint8{0, 2, 3}[r.Intn(3)]
+	k := hx.NumericKinds[r.Intn(10)]
+	es := (&hx.Val{Kind: "[]" + k}).ElemSize()
+	var n int
+	szName := []string{"small", "64KiB-1elem", "64KiB", ">64KiB"}[sizeClass]
+	switch sizeClass {
+	case 0:
+		n = r.Range(1, 600)
+	case 1:
+		n = 65536/es - 1
+	case 2:
+		n = 65536 / es
+	default:
+		n = 65536/es + r.Range(1, 16384)
+	}
+	dims := []uint64{uint64(n)}
+	if r.Chance(1, 2) {
+		for _, f := range []int{8, 4, 2} {
+			if n%f == 0 && r.Chance(1, 2) {
+				dims = []uint64{uint64(n / f), uint64(f)}
+				break
+			}
+		}
+	}
+	v1 := hx.GenNumeric(r, "[]"+k, n, s1)
+	v2 := hx.GenNumeric(r, "[]"+k, n, s2)
+	op := hx.Op{K: "create_ds", Path: "/rw", DT: k, Dims: dims, Data: &v1, Expect: "ok"}
+	layout := "contiguous"
+	if chunked {
+		layout = "chunked"
+		op.Chunk = hx.GenChunk(r, dims, []int{0, 1, 2, 4}[r.Intn(4)])
+		if hx.NumElems(dims)/hx.NumElems(op.Chunk) > 4096 {
+			op.Chunk = hx.GenChunk(r, dims, 0)
+		}
+	}
+	s := &hx.Script{SB: sbv, Ops: []hx.Op{op}}
+	if second {
+		s.Ops = append(s.Ops, hx.Op{K: "close"}, hx.Op{K: "reopen"}, hx.Op{K: "opends", Path: "/rw"})
+	}
+	s.Ops = append(s.Ops, hx.Op{K: "write", Path: "/rw", Data: &v2})
+	wi := len(s.Ops) - 1
+	path := filepath.Join(c.Dir, "c01rw.h5")
+	e := hx.Run(path, s)
+	mode := "same-session"
+	if second {
+		mode = "later-session"
+	}
+	key := func(sym string) string { return fmt.Sprintf("rewrite:%s:%s:%s:%s", sym, mode, layout, szName) }
+	wit := func(detail any) map[string]any {
+		return map[string]any{"sb": sbv, "kind": k, "dims": dims, "chunk": op.Chunk, "first_style": s1, "last_style": s2, "mode": mode, "detail": detail}
+	}
+	c.Case(fmt.Sprintf("rewrite|%s|%s|%s|first%d|last%d", mode, layout, szName, s1, s2), true)
+	c.Count("rewrite:"+mode+":"+layout, 1)
+	want := v1.AsFloat64Bits()
+	for i := 0; i < wi && i < len(e.Res); i++ {
+		if !e.Res[i].OK() {
+			c.Violation(key("setup-failed:"+s.Ops[i].K), wit(e.Res[i]))
+			return
+		}
+	}
+	if wi >= len(e.Res) {
+		c.Violation(key("setup-failed"), wit(e.Res))
+		return
+	}
+	switch wr := e.Res[wi]; {
+	case wr.Panic != "":
+		c.Violation(key("write-panic")+"@"+wr.Panic, wit(wr))
+		return
+	case wr.Err != "":
+		// refusing the overwrite is an answer (non-contiguous data through OpenDataset); the first data must then stand
+		if !(second && chunked) {
+			c.Violation(key("write-refused"), wit(wr.Err))
+			return
+		}
+		c.Count("rewrite:refused", 1)
+	default:
+		want = v2.AsFloat64Bits()
+	}
+	if len(e.Res) > wi+1 && !e.Res[wi+1].OK() {
+		c.Violation(key("close-failed"), wit(e.Res[wi+1]))
+		return
+	}
+	dp := dump.File(path, dump.Options{})
+	if !dp.OpenRes.OK() {
+		c.Violation(key("open-fail"), wit(dp.OpenRes))
+		return
+	}
+	o := dp.Get("/rw")
+	if o == nil || o.Kind != "dataset" {
+		c.Violation(key("missing"), wit(dp.Paths()))
+		return
+	}
+	if !hx.ReadableKinds[k] {
+		return
+	}
+	if !o.ReadRes.OK() {
+		c.Violation(key("read-error"), wit(o.ReadRes))
+		return
+	}
+	if len(o.Read) != len(want) {
+		c.Violation(key("length"), wit(fmt.Sprintf("Read returned %d elements, wrote %d", len(o.Read), len(want))))
+		return
+	}
+	for j := range want {
+		if o.Read[j] != want[j] {
+			c.Violation(key("values"), wit(fmt.Sprintf("element %d: read %016x, last written %016x, first written %016x", j, o.Read[j], want[j], v1.AsFloat64Bits()[j])))
+			return
+		}
+	}
+}
+
 var C01 = &ev.Property{
 	ID:    "C01",
 	Level: "exploration",
-	Rule: "each case writes a file (superblock 0/2/3) with 1-3 datasets through the public API: element type from {10 numeric kinds, fixed strings, arrays, enums, opaque, object references, compound}, rank 1-4, extents from {1,2,3,4,5,7,8,9,11,13,16,17,31,32,64, random}, contiguous or chunked (whole extent, non-dividing chunk, many chunks per dimension, chunk of one element, random; numeric ones optionally filtered) and data from {zeros, extremes incl. NaN payloads / >2^31 / >2^63, ramp, random}; after Close and a fresh Open the monitor checks path, kind, shape, datatype class/size/sign and every typed read (Read, ReadStrings, ReadCompound) against the written values, and that reads without a meaning for the type report errors. " +
+	Rule: "each case writes a file (superblock 0/2/3) with 1-3 datasets through the public API: element type from {10 numeric kinds, fixed strings, arrays, enums, opaque, object references, compound}, rank 1-4, extents from {1,2,3,4,5,7,8,9,11,13,16,17,31,32,64, random}, contiguous or chunked (whole extent, non-dividing chunk, many chunks per dimension, chunk of one element, random; numeric ones optionally filtered) and data from {zeros, extremes incl. NaN payloads / >2^31 / >2^63, ramp, random}; after Close and a fresh Open the monitor checks path, kind, shape, datatype class/size/sign and every typed read (Read, ReadStrings, ReadCompound) against the written values, and that reads without a meaning for the type report errors. Every sixth case writes one numeric dataset twice (in the same session, or in a later session through OpenDataset), enumerating byte size {small, 64 KiB less one element, 64 KiB, above} x layout x style of the first and of the last data; the last data written must be read. " +
 		"distinct = (superblock, layout class, type family, rank, size bucket, data style); every written dataset is non-trivial.",
 	Assumptions: []string{
 		"expected numeric values use the reader's documented widening to float64 computed by the same Go conversions",
